@@ -528,4 +528,6 @@ pub fn run(ctx: &mut Ctx) {
         let e = gen_ex(&mut r, b, d, &mut next);
         check_tree(ctx, b, &sps[bi], &e);
     }
+    // "built through the expression API": every helper of the API against the general form it abbreviates (same tree)
+    crate::api::run(ctx);
 }
